@@ -103,7 +103,14 @@ def positions(chk, n=3000, stream="fallback:positions"):
     return core.diff_streams(chk, stream, reqs, core.run_harness(reqs), core.run_driver(reqs))
 
 
+def child_args(chk):
+    """children lists of every combination of node kinds through the parameter-list model and the real generator"""
+    from . import childargs
+    return childargs.run(chk, n_random=200, stream="fallback:child-args")
+
+
 STREAMS = {
+    "ArgLevels": child_args,
     "ExprTables": expr_tables,
     "StrTables": str_tables,
     "VarName": var_name,
